@@ -163,6 +163,14 @@ def _handle_ConnectionUp (event):
     _update_tree()
 
 
+def _handle_PortStatus (event):
+  # A port that goes away or (re)appears has its default config again,
+  # whatever we pushed before
+  if event.added or event.deleted:
+    _prev[event.dpid].pop(event.port, None)
+    if event.added: _update_tree()
+
+
 def _handle_LinkEvent (event):
   # When links change, update spanning tree
 
@@ -281,6 +289,7 @@ def launch (no_flood = False, hold_down = False):
 
   def start_spanning_tree ():
     core.openflow.addListenerByName("ConnectionUp", _handle_ConnectionUp)
+    core.openflow.addListenerByName("PortStatus", _handle_PortStatus)
     core.openflow_discovery.addListenerByName("LinkEvent", _handle_LinkEvent)
     log.debug("Spanning tree component ready")
   core.call_when_ready(start_spanning_tree, "openflow_discovery")
